@@ -85,7 +85,7 @@ func runC07(t *vs.Tape, cfg map[string]string) (res vs.Result) {
 	}
 	for i := 0; i < nOps; i++ {
 		if script != nil {
-			w := make([]int, int(opBulkAdd)+1)
+			w := make([]int, int(opMigrate)+1)
 			w[int(script[i])] = 1
 			g.swarm = w
 		}
